@@ -28,6 +28,9 @@ type KeySetPlan struct {
 	// 0 = target), set by the shrinker.
 	OnlyList []int `json:"only_list,omitempty"`
 	Hint     []int `json:"hint,omitempty"`
+	// BadEnc: the hello is sealed to the target but carries an encapsulated
+	// key no X25519 key can use: never acceptable, whatever the list.
+	BadEnc int `json:"bad_enc,omitempty"`
 }
 
 func permLists(n int) [][]int {
@@ -60,6 +63,11 @@ func executeKeySet(t *testing.T, prop string, seed uint64, p *KeySetPlan) *core.
 		base.Expect = "reject"
 		base.Mutations = []Mutation{{Kind: "unlisted-suite"}}
 	}
+	if p.BadEnc > 0 {
+		base.Expect = "reject"
+		base.Mutations = []Mutation{{Kind: "bad-enc", A: p.BadEnc - 1}}
+	}
+	never := p.Unlisted || p.BadEnc > 0
 	b, err := buildScript(seed, &base)
 	if err == errSkip {
 		res.Probe("scenario_skipped")
@@ -71,7 +79,7 @@ func executeKeySet(t *testing.T, prop string, seed uint64, p *KeySetPlan) *core.
 	}
 	pool := append([]KeySpec{base.Target}, p.Others...)
 	var hrr, rec2, want2 []byte
-	if p.WithRetry && !p.Unlisted {
+	if p.WithRetry && !never {
 		hc := &histClient{p: &base, b: b, r: res, seed: seed, sendSeq: 1}
 		hrr = hrrRecord(core.Mix(seed, "hrr"))
 		rec2, _, _, want2, err = hc.hello2("hello2-ok", 0, true)
@@ -84,7 +92,7 @@ func executeKeySet(t *testing.T, prop string, seed uint64, p *KeySetPlan) *core.
 	// connection under test, another client uses another key of the list
 	// ("decoy"; every other list of the enumeration).
 	decoys := map[int]*built{}
-	if !p.Unlisted {
+	if !never {
 		for i := 1; i < len(pool); i++ {
 			db := base
 			db.Target, db.Keys, db.Mutations = pool[i], []KeySpec{pool[i]}, nil
@@ -111,7 +119,7 @@ func executeKeySet(t *testing.T, prop string, seed uint64, p *KeySetPlan) *core.
 		has := false
 		for _, i := range l {
 			specs = append(specs, pool[i])
-			if i == 0 && !p.Unlisted {
+			if i == 0 && !never {
 				has = true
 			}
 		}
@@ -189,7 +197,7 @@ func executeKeySet(t *testing.T, prop string, seed uint64, p *KeySetPlan) *core.
 			continue
 		}
 		log = append(log, fmt.Sprintf("%v %v", l, has))
-		if !p.WithRetry || p.Unlisted {
+		if !p.WithRetry || never {
 			continue
 		}
 		var wn int
@@ -249,6 +257,9 @@ func genC09(seed uint64, idx int) *Plan {
 		if len(k.Base.Target.Suites) > 2 {
 			k.Base.Target.Suites = k.Base.Target.Suites[:2]
 		}
+	}
+	if !k.Unlisted && idx%8 == 5 {
+		k.BadEnc = 1 + (idx/8)%4
 	}
 	n := 1 + r.IntN(3)
 	for i := 0; i < n; i++ {
